@@ -68,8 +68,8 @@ impl Cfg {
     }
 }
 
-const WORDS: [&str; 24] = [
-    "", "a", "T", "_", "foo", "Bar", "r#type", "u8", "Vec<T>", "Option<&'static str>", "x::y::Z",
+const WORDS: [&str; 30] = [
+    "", "a", "T", "_", "foo", "Bar", "r#type", "u8", "Vec<T>", "Option<&'static str>", "x::y::Z", "Vec < (u8 , Inner) >", "& 'static str", "[ u8 ; 4 ]", "Box < T >", "a :: b", "( )",
     "é", "日本語", "a\u{0301}", "\u{202e}rtl", "😀", "\0", "\n\t\r", "\"q\"", "\\b\\", "{}", "[1]",
     "null", " lead",
 ];
@@ -99,7 +99,7 @@ pub fn gen_string(rng: &mut Rng, cfg: &Cfg) -> String {
         "w".repeat(n)
     } else if k < 99 || !cfg.big {
         // compact length boundary 63/64/65 (bytes)
-        let n = *rng.pick(&[63usize, 64, 65, 100]);
+        let n = *rng.pick(&[63usize, 64, 65, 100, 255, 256, 257]);
         if rng.flip() {
             "x".repeat(n)
         } else {
